@@ -150,8 +150,11 @@ func H_Segments() {
 	rx, ry := vp.F32("rx"), vp.F32("ry")
 	vp.Assume(vp.All(rx != 0, ry != 0, rx == rx, ry == ry))
 	rot, x, y := vp.F32("rot"), vp.F32("x"), vp.F32("y")
-	z.AbsArcTo(rx, ry, rot, vp.Bool("large"), vp.Bool("sweep"), x, y)
-	vp.Reach("drawn")
+	const big = 1 << 100
+	vp.Assume(vp.All(rx <= big, rx >= -big, ry <= big, ry >= -big, rot <= big, rot >= -big, x <= big, x >= -big, y <= big, y >= -big))
+	large, sweep := vp.Choice("large", 2) == 1, vp.Choice("sweep", 2) == 1
+	vp.Reach("inputs")
+	z.AbsArcTo(rx, ry, rot, large, sweep, x, y)
 	vp.Assert(len(ras.Log) <= 4, "an arc is at most four segments")
 	ok := true
 	for i := range ras.Log {
